@@ -227,3 +227,27 @@ Fixpoint wtree_eqb (a b : wtree) : bool :=
     | _, _ => false
     end
   end.
+
+(** boolean equality on writer calls (for the correspondence rows) *)
+Fixpoint item_eqb (a b : item) : bool :=
+  let zl := (fix go (x y : list Z) : bool :=
+           match x, y with
+           | [], [] => true
+           | p :: ps, q :: qs => (p =? q) && go ps qs
+           | _, _ => false
+           end) in
+  match a, b with
+  | IStruct ta la, IStruct tb lb => (ta =? tb) &&
+      (fix go (x y : list item) : bool :=
+         match x, y with
+         | [], [] => true
+         | p :: ps, q :: qs => item_eqb p q && go ps qs
+         | _, _ => false
+         end) la lb
+  | IInt ta x, IInt tb y | ILong ta x, ILong tb y | IBig ta x, IBig tb y
+  | IDate ta x, IDate tb y | IIntv ta x, IIntv tb y => (ta =? tb) && (x =? y)
+  | IEnum ta ra x, IEnum tb rb y | IMask ta ra x, IMask tb rb y => (ta =? tb) && (ra =? rb) && (x =? y)
+  | IBool ta x, IBool tb y => (ta =? tb) && Bool.eqb x y
+  | IText ta x, IText tb y | IBytes ta x, IBytes tb y => (ta =? tb) && zl x y
+  | _, _ => false
+  end.
